@@ -35,6 +35,7 @@ const (
 	opCmpSmall // Cmp of two small (low-bit) values, mapped to {0,1,2} by adding 1
 	opRange    // range check of a small value to K bits (no new value: appends a copy)
 	opInverse  // 1/a generated only when eval(a) != 0
+	opBoolScaled // AssertIsBoolean(K * in[A]) on a free input shaped so that K*in[A] is 0 or 1; value K*in[A]
 	numOps
 )
 
@@ -42,7 +43,7 @@ const (
 var opWeights = []int{opAdd, opAdd, opSub, opSub, opMul, opMul, opMul, opMulConst, opMulConst, opAddConst, opAddConst, opNeg, opDiv, opDiv, opIsZero, opIsZero,
 	opSelect, opSelect, opLowBits, opBitOp, opLookup, opLookup, opHintSq, opHintSq, opWide, opMulAcc, opMulAcc, opCmpSmall, opRange, opInverse, opInverse}
 
-var opNames = []string{"add", "sub", "mul", "mulc", "addc", "neg", "div", "iszero", "select", "lowbits", "bitop", "lookup", "hintsq", "wide", "mulacc", "cmp", "range", "inv"}
+var opNames = []string{"add", "sub", "mul", "mulc", "addc", "neg", "div", "iszero", "select", "lowbits", "bitop", "lookup", "hintsq", "wide", "mulacc", "cmp", "range", "inv", "boolscaled"}
 
 type Op struct {
 	Kind    int
@@ -72,6 +73,7 @@ type GenFeat struct {
 	MaxOps   int
 	MinOps   int
 	Bits     bool
+	ScaledBool bool
 	WireQuery bool
 	Emulated  bool
 }
@@ -142,11 +144,31 @@ func GenProg(tape *simrt.Tape, q *big.Int, feat GenFeat) (*Prog, []*big.Int) {
 		in[i] = drawValue(tape, q)
 	}
 	vals := append([]*big.Int(nil), in...)
+	if feat.ScaledBool {
+		// booleans carried by a wire with a coefficient other than 1 (specialised bool gates with
+		// unusual coefficients): shape a secret input so that K * input is 0 or 1
+		shaped := map[int]bool{}
+		for k := ch(3); k > 0 && p.NIn-p.NPubIn > 0; k-- {
+			i := p.NPubIn + ch(p.NIn-p.NPubIn)
+			if shaped[i] {
+				continue
+			}
+			shaped[i] = true
+			K := []int{-1, 2, -2, 3, -1}[ch(5)]
+			bit := int64(ch(2))
+			inv := new(big.Int).ModInverse(new(big.Int).Mod(big.NewInt(int64(K)), q), q)
+			in[i] = inv.Mul(inv, big.NewInt(bit)).Mod(inv, q)
+			vals[i] = in[i]
+			o := Op{Kind: opBoolScaled, A: i, K: K}
+			p.Ops = append(p.Ops, o)
+			vals = append(vals, evalOp(o, vals, q))
+		}
+	}
 	maxOps, minOps := feat.MaxOps, feat.MinOps
 	if maxOps == 0 {
 		maxOps = 12
 	}
-	nops := minOps + ch(maxOps-minOps+1)
+	nops := len(p.Ops) + minOps + ch(maxOps-minOps+1)
 	for len(p.Ops) < nops {
 		kind := opWeights[ch(len(opWeights))]
 		n := len(vals)
@@ -340,6 +362,8 @@ func evalOp(o Op, v []*big.Int, q *big.Int) *big.Int {
 		r.SetInt64(int64(x.Cmp(y) + 1))
 	case opRange:
 		r = lowBits(a, o.K)
+	case opBoolScaled:
+		r.Mul(a, big.NewInt(int64(o.K)))
 	}
 	return r.Mod(r, q)
 }
@@ -450,6 +474,9 @@ func (c *GC) Define(api frontend.API) error {
 			x := api.FromBinary(toBits(o.A)[:cb]...)
 			y := api.FromBinary(toBits(o.B)[:cb]...)
 			r = api.Add(api.Cmp(x, y), 1)
+		case opBoolScaled:
+			r = api.Mul(v[o.A], o.K)
+			api.AssertIsBoolean(r)
 		case opRange:
 			if rc == nil {
 				rc = rangecheck.New(api)
@@ -558,6 +585,21 @@ func (p *Prog) Assign(in []*big.Int, q *big.Int, breakOut int) *GC {
 	return a
 }
 
+// divisionsDefined says whether the program can be evaluated at all on these inputs.
+func (p *Prog) divisionsDefined(in []*big.Int, q *big.Int) bool {
+	v := append([]*big.Int(nil), in...)
+	for _, o := range p.Ops {
+		if o.Kind == opDiv && v[o.B].Sign() == 0 {
+			return false
+		}
+		if o.Kind == opInverse && v[o.A].Sign() == 0 {
+			return false
+		}
+		v = append(v, evalOp(o, v, q))
+	}
+	return true
+}
+
 // ValidInputs perturbs inputs into another input vector for which the program is still
 // well-defined (no division by zero): returns nil if the perturbed vector is not valid.
 func (p *Prog) ValidInputs(in []*big.Int, q *big.Int) bool {
@@ -568,6 +610,11 @@ func (p *Prog) ValidInputs(in []*big.Int, q *big.Int) bool {
 		}
 		if o.Kind == opInverse && v[o.A].Sign() == 0 {
 			return false
+		}
+		if o.Kind == opBoolScaled {
+			if b := evalOp(o, v, q); b.Sign() != 0 && b.Cmp(big.NewInt(1)) != 0 {
+				return false
+			}
 		}
 		v = append(v, evalOp(o, v, q))
 	}
